@@ -410,6 +410,9 @@ func (e *env) shuffled() {
 				continue
 			}
 			m := 1 + u%3
+			if u >= 3 && u%3 == 0 {
+				m = 7 + (u/3)%2 // more wires than any small-exponent shortcut covers
+			}
 			num, den := e.ratioInputs(D, m, t), e.ratioInputs(D, m, t+3)
 			beta := e.rng.BigBelow(F.P)
 			form := iops.AllForms[t%6]
@@ -487,6 +490,9 @@ func (e *env) copyConstraint() {
 				continue
 			}
 			m := 1 + u%3
+			if u >= 3 && u%3 == 0 {
+				m = 7 + (u/3)%2 // more wires than any small-exponent shortcut covers
+			}
 			ins := e.ratioInputs(D, m, t)
 			beta, gamma := e.rng.BigBelow(F.P), e.rng.BigBelow(F.P)
 			form := iops.AllForms[t%6]
